@@ -9,6 +9,8 @@
  *   path: f = portable fallback KS_<ty>_<op>_overflow0,
  *         b = KS_<ty>_<op>_overflow as arithmetic.h defines it for this compiler
  *   ty: i32 i64 u32 u64 size;  op: add sub mul;  a, b decimal
+ * A line starting with "q" is answered by "HB <add> <sub> <mul>": does this compiler
+ * have __builtin_{add,sub,mul}_overflow (the branch the entry points take).
  * stdout, one line per case:  "T" (SIGFPE/SIGILL/SIGSEGV/SIGABRT raised by the call)
  *                           | "<ret> S <stored value>" | "<ret> N" (nothing stored)
  * Whether something was stored is decided by calling twice with two different
@@ -24,6 +26,28 @@
 #include <string.h>
 
 #include "libks/arithmetic.h"
+
+/* the test arithmetic.h applies (it #undefs its has_builtin at the end): evaluated by the preprocessor */
+#if defined(__has_builtin)
+#define KS_HB(x) __has_builtin(x)
+#else
+#define KS_HB(x) 0
+#endif
+#if KS_HB(__builtin_add_overflow)
+#define KS_HB_ADD 1
+#else
+#define KS_HB_ADD 0
+#endif
+#if KS_HB(__builtin_sub_overflow)
+#define KS_HB_SUB 1
+#else
+#define KS_HB_SUB 0
+#endif
+#if KS_HB(__builtin_mul_overflow)
+#define KS_HB_MUL 1
+#else
+#define KS_HB_MUL 0
+#endif
 
 static sigjmp_buf trap_env;
 
@@ -105,6 +129,11 @@ main(void)
 	sigaction(SIGTRAP, &sa_trap, NULL);
 
 	while (fgets(line, sizeof(line), stdin) != NULL) {
+		if (line[0] == 'q') {
+			/* which branch of the entry points this compiler selects: add sub mul */
+			printf("HB %d %d %d\n", KS_HB_ADD, KS_HB_SUB, KS_HB_MUL);
+			continue;
+		}
 		if (sscanf(line, "%7s %7s %7s %63s %63s", path, ty, op, sa, sb) != 5) {
 			puts("BAD");
 			continue;
